@@ -2,44 +2,10 @@
    the field-of-view and no-tie hypotheses in terms of Q's order. *)
 From Coq Require Import ZArith QArith Qround Qabs Qcanon List Lia Lqa Bool.
 From DV Require Import Base.Field Base.FieldFacts Base.LinAlg Base.QcInst Model.Enums Model.Homog Model.Grid Model.ItkSpec Model.Sampler Model.Lattice
-  Model.SamplerQc Model.Resample Model.ResampleQc Proofs.C05Main.
+  Model.SamplerQc Model.Resample Model.ResampleQc Proofs.QcFacts Proofs.C05Main.
 Import ListNotations.
 
 Local Open Scope Q_scope.
-
-Lemma Qfloor_unique (y : Q) (z : Z) : inject_Z z <= y -> y < inject_Z z + 1 -> Qfloor y = z.
-Proof.
-  intros H1 H2. pose proof (Qfloor_le y) as A. pose proof (Qlt_floor y) as B.
-  rewrite inject_Z_plus in B. change (inject_Z 1) with 1 in B.
-  assert (L1 : inject_Z z < inject_Z (Qfloor y + 1)) by (rewrite inject_Z_plus; change (inject_Z 1) with 1; lra).
-  assert (L2 : inject_Z (Qfloor y) < inject_Z (z + 1)) by (rewrite inject_Z_plus; change (inject_Z 1) with 1; lra).
-  rewrite <- Zlt_Qlt in L1, L2. lia.
-Qed.
-
-Lemma Qfloor_nonneg (y : Q) : 0 <= y -> (0 <= Qfloor y)%Z.
-Proof. intro H. change 0%Z with (Qfloor 0). apply Qfloor_resp_le. exact H. Qed.
-Lemma Qfloor_le_Z (y : Q) (n : Z) : y <= inject_Z n -> (Qfloor y <= n)%Z.
-Proof. intro H. rewrite <- (Qfloor_Z n). apply Qfloor_resp_le. exact H. Qed.
-Lemma Qfloor_lt_Z (y : Q) (n : Z) : y < inject_Z n -> (Qfloor y < n)%Z.
-Proof. intro H. pose proof (Qfloor_le y) as A. rewrite Zlt_Qlt. lra. Qed.
-
-Lemma this_of_Z (i : Z) : this (of_Z (K:=QcF) i) == inject_Z i.
-Proof.
-  destruct i as [|p|p]; cbn [of_Z].
-  - reflexivity.
-  - rewrite Qc_of_pos. cbn -[Qred]. rewrite Qred_correct. reflexivity.
-  - rewrite Qc_of_pos. cbn -[Qred Qopp]. rewrite !Qred_correct. reflexivity.
-Qed.
-
-Lemma this_add (a b : Qc) : this (fadd (K:=QcF) a b) == this a + this b.
-Proof. change (this (Q2Qc (this a + this b)) == this a + this b). apply Qred_correct. Qed.
-Lemma this_sub (a b : Qc) : this (fsub (K:=QcF) a b) == this a - this b.
-Proof.
-  change (this (Q2Qc (this a + this (Q2Qc (- this b)))) == this a - this b).
-  change (Qred (this a + Qred (- this b)) == this a - this b). rewrite !Qred_correct. reflexivity.
-Qed.
-Lemma this_half : this (half (K:=QcF)) == 1 # 2.
-Proof. vm_compute. reflexivity. Qed.
 
 Lemma nearQ_of_Z (i : Z) : nearQ (of_Z (K:=QcF) i) = i.
 Proof.
